@@ -11,6 +11,9 @@ COMP = "robotools/liquidhandling/composition.py"
 UT = "robotools/utils.py"
 
 MUTANTS = [
+    dict(id="init-all-above-max", expect=["C20"], edits=[(LW, "        if np.any(initial_volumes > max_volume):", "        if np.all(initial_volumes > max_volume):")]),
+    dict(id="max-eq-min-accepted", expect=["C20"], edits=[(LW, "        if max_volume is None or not max_volume > min_volume:", "        if max_volume is None or not max_volume >= min_volume:")]),
+    dict(id="troughwells-c-order", expect=["C19"], edits=[(UT, '    trough_wells = list(numpy.asarray(trough_wells).flatten("F"))', '    trough_wells = list(numpy.asarray(trough_wells).flatten())')]),
     dict(id="group-last-digit", expect=["C18"], edits=[(WU, "            group = s[1:]", "            group = s[2:]")]),
     dict(id="group-order-mod10", expect=["C18"], edits=[(WU, "column_groups = [column_groups_dd[col] for col in sorted(column_groups_dd.keys())]", "column_groups = [column_groups_dd[col] for col in sorted(column_groups_dd.keys(), key=lambda k: int(k) % 10)]")]),
     dict(id="dest-slice-1-3", expect=[], silent=["C18"], edits=[(WU, "            group = d[1:]", "            group = d[1:3]")]),
